@@ -19,6 +19,10 @@ struct Batch {
     reaps: Vec<i64>,
     /// other processes terminated by a signal the actor sent
     kills: Vec<i64>,
+    /// other processes stopped ("S") or continued ("C") by a signal the actor sent, in order
+    sigs: Vec<Value>,
+    /// live children whose stop/continue notification the actor consumed (wait)
+    acks: Vec<i64>,
     ex: bool,
     xs: i64,
     odd: Vec<String>,
@@ -27,7 +31,7 @@ struct Batch {
 impl Batch {
     fn to_json(&self, run: u64) -> Value {
         json!({"ev": "batch", "run": run, "actor": self.actor, "probes": self.probes, "forks": self.forks,
-               "reaps": self.reaps, "kills": self.kills, "ex": self.ex, "xs": self.xs, "odd": self.odd})
+               "reaps": self.reaps, "kills": self.kills, "sigs": self.sigs, "acks": self.acks, "ex": self.ex, "xs": self.xs, "odd": self.odd})
     }
 }
 
@@ -138,7 +142,20 @@ fn record(r: &ShellResult) -> Recorded {
                         if oppid != ppid {
                             bt.odd.push(format!("ppid of {pid} changed {oppid} -> {ppid}"));
                         }
-                        if ost == "R" && st != "R" {
+                        if ost == "R" && st == "S" && ch && pid != actor {
+                            bt.sigs.push(json!([pid, "S"]));
+                        } else if ost == "S" && st == "R" && ch && pid != actor {
+                            bt.sigs.push(json!([pid, "C"]));
+                        } else if ost == "S" && st.starts_with('K') && pid != actor {
+                            // continued and killed in one step of the actor
+                            bt.sigs.push(json!([pid, "C"]));
+                            bt.kills.push(pid);
+                            if !ch {
+                                bt.reaps.push(pid);
+                            }
+                        } else if ost == st && och && !ch && (st == "R" || st == "S") {
+                            bt.acks.push(pid);
+                        } else if ost == "R" && st != "R" {
                             match dead_status(&st) {
                                 Some(xs) if ch && pid == actor && !bt.ex => {
                                     bt.ex = true;
